@@ -169,6 +169,7 @@ pub struct ReadOutcome {
     pub budget_exceeded: bool,
     pub fired: u64,
     pub eintr: u64,
+    pub hard: u64,
     pub cut_offsets: Vec<usize>,
 }
 
@@ -211,6 +212,7 @@ pub fn read_under_plan(image: &[u8], stack: ReadStack, plan: &ReadPlan, budget: 
         budget_exceeded: src.budget_exceeded,
         fired: src.short_fired + src.chunk_fired,
         eintr: src.eintr_fired,
+        hard: src.hard_fired,
         cut_offsets: src.cut_offsets.clone(),
     }
 }
